@@ -8,13 +8,14 @@
 EXTENDS XmlAdapter, Json, TLC, FiniteSets
 
 CONSTANTS MaxItems, EmitOn, FullProduct, ItemPool   \* ItemPool: "all" | "starts" (only start and end tags: deeper nesting)
+                                                    \*         | "runs" (one plain start tag, character data in pieces, a comment: several merged text runs per document)
 U1 == <<"u", "1">>
 U2 == <<"u", "2">>
 P == <<"p">>
 Q == <<"q">>
 ElemQ == {[pre |-> <<>>, lo |-> <<"a">>], [pre |-> P, lo |-> <<"a">>], [pre |-> Q, lo |-> <<"b">>]}
 DeclSets == {<<>>, <<B(P, U1)>>, <<B(<<>>, U1)>>, <<B(<<>>, <<>>)>>, <<B(P, U2)>>, <<B(Q, U1), B(<<>>, U2)>>, <<B(XmlPre, XmlUri), B(P, U1)>>}
-AttrSets == {<<>>, <<[pre |-> <<>>, lo |-> <<"x">>, v |-> <<"1">>]>>, <<[pre |-> <<>>, lo |-> <<"w">>, v |-> <<"a", "nl", "tab", "b", "cr">>]>>,   \* (white space written as &#10; &#9; &#13;)
+AttrSets == {<<[pre |-> P, lo |-> <<"x">>, v |-> <<"1">>], [pre |-> <<>>, lo |-> <<"x">>, v |-> <<"2">>]>>, <<>>, <<[pre |-> <<>>, lo |-> <<"x">>, v |-> <<"1">>]>>, <<[pre |-> <<>>, lo |-> <<"w">>, v |-> <<"a", "nl", "tab", "b", "cr">>]>>,   \* (white space written as &#10; &#9; &#13;)
              <<[pre |-> P, lo |-> <<"x">>, v |-> <<"a", "sp", "<">>], [pre |-> <<>>, lo |-> <<"y">>, v |-> <<>>]>>}
 CharItems == {[k |-> "chars", v |-> <<"t">>, how |-> "plain"], [k |-> "chars", v |-> <<"<", "c", "&">>, how |-> "cdata"],
               [k |-> "chars", v |-> <<"&", "w2">>, how |-> "ref"], [k |-> "chars", v |-> <<"sp", "nl">>, how |-> "plain"],
@@ -47,7 +48,9 @@ PA == [pre |-> P, lo |-> <<"a">>]
 QB == [pre |-> Q, lo |-> <<"b">>]
 X1 == <<[pre |-> <<>>, lo |-> <<"x">>, v |-> <<"1">>]>>
 PX == <<[pre |-> P, lo |-> <<"x">>, v |-> <<"a", "sp", "<">>], [pre |-> <<>>, lo |-> <<"y">>, v |-> <<>>]>>
-StartTags == IF ItemPool = "starts" THEN   \* nesting chains: only what matters for namespace scoping
+RunChars == {c \in CharItems : c.how \in {"cdata", "split3"} \/ c.v = <<"t">>}
+StartTags == IF ItemPool = "runs" THEN { <<A_, <<>>, <<>>>> } ELSE
+             IF ItemPool = "starts" THEN   \* nesting chains: only what matters for namespace scoping
                { <<A_, <<>>, <<>>>>, <<A_, <<B(<<>>, U1)>>, <<>>>>, <<A_, <<B(<<>>, <<>>)>>, <<>>>>, <<PA, <<B(P, U1)>>, <<>>>>,
                  <<A_, <<B(XmlPre, XmlUri)>>, <<>>>>,    \* the xml prefix declared explicitly (legal, and a no-op)
                  <<A_, <<B(<<>>, U1), B(P, U1)>>, <<>>>> }   \* the default namespace declared BEFORE a prefix (xmlns="" below it removes a middle entry)
@@ -55,9 +58,13 @@ StartTags == IF ItemPool = "starts" THEN   \* nesting chains: only what matters 
              ELSE { <<A_, <<>>, <<>>>>, <<A_, <<B(<<>>, U1)>>, X1>>, <<PA, <<B(P, U1)>>, PX>>, <<A_, <<B(<<>>, <<>>)>>, <<>>>>,
                     <<PA, <<B(P, U2)>>, <<>>>>, <<QB, <<B(Q, U1), B(<<>>, U2)>>, X1>>, <<A_, <<B(P, U1)>>, <<>>>>, <<PA, <<>>, X1>>,
                     <<A_, <<B(XmlPre, XmlUri), B(P, U1)>>, <<[pre |-> XmlPre, lo |-> <<"l","a","n","g">>, v |-> <<"e","n">>]>>>>,
-                    <<A_, <<>>, <<[pre |-> <<>>, lo |-> <<"w">>, v |-> <<"a", "nl", "tab", "b", "cr">>]>>>> }
+                    <<A_, <<>>, <<[pre |-> <<>>, lo |-> <<"w">>, v |-> <<"a", "nl", "tab", "b", "cr">>]>>>>,
+                    \* two attributes with the same local name in different namespaces are two attributes: p:x and x, xml:lang and lang
+                    <<PA, <<B(P, U1)>>, <<[pre |-> P, lo |-> <<"x">>, v |-> <<"1">>], [pre |-> <<>>, lo |-> <<"x">>, v |-> <<"2">>]>>>>,
+                    <<A_, <<>>, <<[pre |-> <<>>, lo |-> <<"l","a","n","g">>, v |-> <<"d","e">>], [pre |-> XmlPre, lo |-> <<"l","a","n","g">>, v |-> <<"e","n">>]>>>> }
 Next == \/ \E t \in StartTags : Start(t[1], t[2], t[3])
         \/ End \/ (ItemPool = "all" /\ (\E c \in CharItems : Chars(c) \/ \E o \in Others : Other(o)))
+        \/ (ItemPool = "runs" /\ (\E c \in RunChars : Chars(c) \/ Other([k |-> "comment", v |-> <<"c">>])))
 
 CompleteDoc == Depth = 0 /\ roots = 1
 \* the Store machine fed with the adapter's events builds the data model
